@@ -240,6 +240,7 @@ def coq_eval_sharded(header, items, render, name, shard=400):
 
 # ---------------------------------------------------------------- harness + shim
 def build_shim():
+    os.makedirs(BUILD, exist_ok=True)
     so = os.path.join(BUILD, "vshim.so")
     src = os.path.join(ROOT, "shim", "vshim.c")
     if not os.path.exists(so) or os.path.getmtime(so) < os.path.getmtime(src):
